@@ -119,6 +119,8 @@ def _synth_case(task):
     wide = {k: (complex(rng.randn(), rng.randn()) * 10.0 ** (-3 * (i % 5))
                 if k in ms else 0.0) for i, k in enumerate(allm)}
     sets.append(wide)
+    # a coefficient set holding exactly the modes that exist (|s| <= l)
+    sets.append({k: dense[k] for k in ms})
     scaled = []
     for amp in (1e-10 * (0.6 + 0.8j), 1e8):
         for a in sets:
@@ -131,7 +133,7 @@ def _synth_case(task):
         if a != a0:
             bad.append(('argument-modified',))
         for k in allm:
-            want = a0[k] if k in ms else 0.0
+            want = a0.get(k, 0.0) if k in ms else 0.0
             if not abs(c[k] - want) <= 1e-11 * abs(amp):
                 bad.append(('coefficient', k, complex(c[k]), want))
                 break
